@@ -35,6 +35,9 @@ def run(ctx):
     ctx.samples = tc.sample(progs, 2) + [{"long_history": longs[0]["kind"], "ops": len(longs[0]["ops"])}]
     ctx.distinct = tc.distinct(progs + rnd) | {p["kind"] + str(len(p["ops"])) for p in longs}
     tc.judge(ctx, programs, "c01")
+    # the seeded programs again on the build with integer-overflow checks and debug assertions
+    vlib.run_and_judge(ctx, rnd + longs[:12], "Trace_Tables.cfg", "Trace_Tables.tla", "c01chk", profile="checked")
+    ctx.extra["builds"] = ["release", "checked (overflow checks + debug assertions) for the seeded programs"]
     # the user-defined generic table (Sdt): every depth-2 history of MC_Sdt plus seeded long histories
     from props import c13
     res = vlib.model_check(ctx, "MC_Sdt_quick.cfg", "MC_Sdt.tla", workers=8)
